@@ -7,7 +7,11 @@ use momtrop::float::MomTropFloat;
 use std::cell::RefCell;
 use std::collections::HashMap;
 
-thread_local! { pub static MODEL: RefCell<HashMap<String, f64>> = RefCell::new(HashMap::new()); }
+thread_local! {
+    pub static MODEL: RefCell<HashMap<String, f64>> = RefCell::new(HashMap::new());
+    /// variables the native run asked for that the model did not contain
+    pub static MISSING: RefCell<Vec<String>> = RefCell::new(Vec::new());
+}
 
 pub fn set_model(m: &HashMap<String, f64>) {
     MODEL.with(|c| *c.borrow_mut() = m.clone());
@@ -22,6 +26,8 @@ pub trait Scalar: MomTropFloat + Copy + 'static {
     fn lit(v: f64) -> Self;
     fn sym_id(&self) -> Option<u32>;
     fn as_f64(&self) -> Option<f64>;
+    /// values handed to a `Logger::write` call: node ids narrowed by to_f64 (Sym) / the numbers (f64)
+    fn capture_logged(js: &serde_json::Value) -> Vec<Self>;
     /// symbolic run: arguments of every square root taken so far (empty natively)
     fn arena_sqrt_args() -> Vec<Self> {
         vec![]
@@ -45,6 +51,9 @@ impl Scalar for Sym {
     fn as_f64(&self) -> Option<f64> {
         None
     }
+    fn capture_logged(_js: &serde_json::Value) -> Vec<Self> {
+        sym::CTX.with(|c| std::mem::take(&mut c.borrow_mut().pending_narrow)).into_iter().map(Sym).collect()
+    }
     fn arena_sqrt_args() -> Vec<Self> {
         sym::CTX.with(|c| {
             c.borrow().nodes.iter().filter_map(|n| if let sym::Node::Sqrt(a) = n { Some(Sym(*a)) } else { None }).collect()
@@ -55,10 +64,12 @@ impl Scalar for Sym {
 impl Scalar for f64 {
     const SYMBOLIC: bool = false;
     fn var(name: &str) -> Self {
-        MODEL.with(|c| {
-            *c.borrow()
-                .get(name)
-                .unwrap_or_else(|| panic!("SYMX-INTERNAL: variable {} missing from model", name))
+        MODEL.with(|c| match c.borrow().get(name) {
+            Some(v) => *v,
+            None => {
+                MISSING.with(|m| m.borrow_mut().push(name.to_string()));
+                0.5
+            }
         })
     }
     fn rat(n: i64, d: i64) -> Self {
@@ -72,6 +83,12 @@ impl Scalar for f64 {
     }
     fn as_f64(&self) -> Option<f64> {
         Some(*self)
+    }
+    fn capture_logged(js: &serde_json::Value) -> Vec<Self> {
+        match js {
+            serde_json::Value::Array(a) => a.iter().map(|v| v.as_f64().unwrap_or(f64::NAN)).collect(),
+            v => vec![v.as_f64().unwrap_or(f64::NAN)],
+        }
     }
 }
 
@@ -92,10 +109,12 @@ pub struct Goal<T> {
     pub lhs: T,
     pub rhs: T,
     pub scale: Option<T>,
+    /// per-goal override of the pow encoding
+    pub pow: Option<crate::smt::PowEnc>,
 }
 
 pub fn goal<T: Scalar>(name: impl Into<String>, lhs: T, rel: Rel, rhs: T) -> Goal<T> {
-    Goal { name: name.into(), rel, lhs, rhs, scale: None }
+    Goal { name: name.into(), rel, lhs, rhs, scale: None, pow: None }
 }
 
 /// evaluate a goal natively: Some(message) if violated beyond `tol` (relative)
